@@ -2,6 +2,8 @@
 // Preconditions: push only elements that are in no heap, pop only on a non-empty heap, remove only
 // contained elements; the heap is drained before destruction (its destructor asserts emptiness).
 #include <vector>
+#include <string>
+#include <pthread.h>
 #include <cstring>
 #include <algorithm>
 #include <set>
@@ -133,7 +135,46 @@ void run(Ctx &c, bool scripted) {
 }
 }
 
-void verif_case(Ctx &c) { if(c.t.pick(4) == 0) run(c, true); else run(c, false); }
+// ---- long histories on a small stack --------------------------------------------------------------
+// frigg is kernel code: the heap is used on stacks of a few pages. A node with tens of thousands of children is reached by a
+// plain history (monotone pushes); taking it out must not need stack space proportional to that number. The operations run
+// in a thread with a 256 KiB stack; the oracle is the usual one (the drained order is the sorted order).
+struct DeepArgs { unsigned n; unsigned shape; bool ok; std::string err; };
+void *deep_thread(void *p) {
+	DeepArgs &a = *(DeepArgs *)p;
+	try {
+	std::vector<Elem> elems(a.n);
+	Heap heap;
+	// shape 0: descending priorities (every push becomes a child of the root... or the new root), 1: ascending, 2: a few big fans
+	for(unsigned i = 0; i < a.n; i++) { elems[i].serial = (int)i; elems[i].prio = a.shape == 0 ? (int)(a.n - i) : a.shape == 1 ? (int)i : (int)((i * 7919u) % 5u) * 100000 + (int)i; heap.push(&elems[i]); }
+	if(a.shape == 2 && a.n > 10) { heap.remove(&elems[a.n / 2]); elems[a.n / 2].prio = -1; }      // remove a non-root element of a big heap
+	// top() is an element that the comparator orders before no other: with Less = (a.prio < b.prio) the drain is non-increasing
+	int last = 2147483647; unsigned drained = 0;
+	while(!heap.empty()) {
+		Elem *t = heap.top(); heap.pop();
+		if(t->prio > last && a.ok) { a.ok = false; a.err = "the drain of a long history is not ordered: priority " + std::to_string(t->prio) + " after " + std::to_string(last); }
+		last = t->prio; drained++;
+	}
+	unsigned expect = a.n - (a.shape == 2 && a.n > 10 ? 1 : 0);
+	if(drained != expect) { a.ok = false; a.err = "the drain of a long history yields " + std::to_string(drained) + " of " + std::to_string(expect) + " elements"; }
+	} catch(Panic &pn) { a.ok = false; a.err = "frg_panic in a long history: " + pn.msg; }
+	return nullptr;
+}
+void run_deep(Ctx &c) {
+	auto &t = c.t;
+	DeepArgs a{20000 + t.pick(40000), t.pick(3), true, ""};
+	c.op("long history: %u pushes (shape %u), drained on a 256 KiB stack", a.n, a.shape);
+	c.tag("long-history-small-stack");
+	pthread_attr_t attr; pthread_attr_init(&attr); pthread_attr_setstacksize(&attr, 256 * 1024);
+	pthread_t th;
+	if(pthread_create(&th, &attr, deep_thread, &a) != 0) { c.discard("no thread"); return; }
+	pthread_join(th, nullptr);
+	pthread_attr_destroy(&attr);
+	VCHECK(c, "C08", a.ok, "%s", a.err.c_str());
+	c.nontrivial = true;
+}
+
+void verif_case(Ctx &c) { unsigned k = c.t.pick(16); if(k == 0 || k == 4 || k == 8 || k == 12) run(c, true); else if(k == 15) run_deep(c); else run(c, false); }
 
 // all push sequences over priorities {0,1,2} up to n = 6 (7 in thorough), followed by every single remove (or none) and a full drain
 void verif_enum(Enum &e) {
